@@ -376,3 +376,194 @@ SCENARIOS = [
     Scenario("C06.basics.abandon_merge.top_level", s_abandon_top_level, [(BREL, "MatchResult.abandon_current_match"), (BREL, "MatchResult.merge_current_match")]),
     Scenario("C06.basics.merge[any depth]", s_merge, [(BREL, "MatchResult.merge_current_match"), (BREL, "PartialMatchResult.merge")], assumptions=_ASSUME[1:]),
 ]
+
+
+# ------------------------------------------------------------------ Pattern.match: node-level / value-level checks and the condition function ---
+
+RREL = "onnxscript/rewriter/_rewrite_rule.py"
+CL_CHECK = ("C06: 'a match is reported if and only if the subgraph ending at that node is an instance of the pattern under its documented meaning' - "
+            "node-level and value-level _check functions and the rule's condition function are part of that meaning: a match is reported only if "
+            "every one of them accepts")
+
+
+def s_pattern_match(ctx):
+    """Pattern.match for ANY number of pattern inputs, bound node patterns and bound value patterns (three loops, each with an inductive
+    invariant at one arbitrary Skolem position).  Every check function answers in one of the five documented ways (True / False / None /
+    falsy MatchResult / raises MatchFailureError), chosen by an uninterpreted function of its position."""
+    from onnxscript.rewriter import _basics, _rewrite_rule as rr, _pattern_ir
+    import onnx_ir as ir
+    from pyvc.values import SBool
+    I = Interp(ctx)
+    NONE = z3.IntVal(-1)
+    un = lambda v: NONE if v is None else term(v)
+    A = z3.ArraySort
+    has0, val0 = z3.Const("bindings_has", A(S_, z3.BoolSort())), z3.Const("bindings_val", A(S_, I_))
+    pm = SObj(_basics.PartialMatchResult, "top")
+    bmap = SMap(has0, val0, mk=SInt, un=un, name="_bindings")
+    N, V, M = ctx.int("bound_node_patterns"), ctx.int("bound_value_patterns"), ctx.int("pattern_inputs")
+    ctx.assume(z3.And(N >= 0, V >= 0, M >= 0))
+    j0, q0, i0 = ctx.int("j0"), ctx.int("q0"), ctx.int("i0")
+    ctx.assume(z3.And(j0 >= 0, j0 < N, q0 >= 0, q0 < V, i0 >= 0, i0 < M))
+    x0 = z3.String("some_variable")
+    ctx.witness.update(N=N, V=V, M=M, j0=j0, q0=q0, i0=i0)
+    has_check = {"n": z3.Function("node_pattern_has_check", I_, z3.BoolSort()), "v": z3.Function("value_pattern_has_check", I_, z3.BoolSort())}
+    answer = {"n": z3.Function("node_check_answer", I_, I_), "v": z3.Function("value_check_answer", I_, I_)}
+    cond_answer = ctx.int("condition_answer")
+    named = z3.Function("input_is_named", I_, z3.BoolSort())
+    name_of = z3.Function("input_name", I_, S_)
+    calls = {"n": [], "v": [], "cond": []}
+    wrong_arg = []
+    ctxobj = []
+
+    def respond(a):
+        """the documented ways a check / condition function can answer"""
+        if ctx.branch(a == 0):
+            return True
+        if ctx.branch(a == 1):
+            return False
+        if ctx.branch(a == 2):
+            return None
+        if ctx.branch(a == 3):
+            r = I.instantiate(_basics.MatchResult, [], {})
+            I.call(I.getattr(r, "fail"), ["because"])
+            return r
+        raise PyRaise(_basics.MatchFailureError("because"))
+
+    def mk_pair(kind, j):
+        pat = SObj(_pattern_ir.NodePattern if kind == "n" else _pattern_ir.ValuePattern, "pattern_" + kind)
+        obj = SObj(ir.Node if kind == "n" else ir.Value, "bound_" + kind)
+        if ctx.branch(has_check[kind](j)):
+            def check_method(*a, **k):
+                raise AssertionError
+
+            def model(interp, *a, **k):
+                calls[kind].append(j)
+                if len(a) != 2 or a[1] is not obj or k or (ctxobj and a[0] is not ctxobj[0]):
+                    wrong_arg.append((kind, a))
+                if not ctxobj:
+                    ctxobj.append(a[0])
+                return respond(answer[kind](j))
+            I.models[check_method] = model
+            pat.fields["check_method"] = check_method
+        else:
+            pat.fields["check_method"] = None
+        return (pat, obj)
+
+    class Items:
+        """a binding table as Pattern.match uses it: `.items()` only"""
+
+        def __init__(self, kind, n):
+            self.seq = SSeq(n, lambda j: mk_pair(kind, z3.simplify(j)), name=kind + "_bindings.items()")
+
+        def items(self):
+            return self.seq
+    Items.items._pyvc_native = True
+    pm.fields.update(_success=True, _bindings=bmap, _node_bindings=Items("n", N), _value_bindings=Items("v", V), _matched_nodes=[], _outputs=[],
+                     _reason="", _failure_nodes_and_values=[])
+    match = SObj(_basics.MatchResult, "match")
+    match.fields["_partial_matches"] = [pm]
+    matched = ctx.choose(2, "the matcher reports a match") == 0
+    if not matched:
+        pm.fields["_success"] = False
+
+    def m_match(*a, **k):
+        raise AssertionError
+    matcher_calls = []
+    I.models[m_match] = lambda interp, *a, **k: (matcher_calls.append((a, k)) or match)
+    matcher = SObj(object, "matcher")
+    matcher.fields["match"] = m_match
+
+    def inp(i):
+        v = SObj(_pattern_ir.Var, "input")
+        v.fields["name"] = SStr(name_of(i)) if ctx.branch(named(i)) else None
+        return v
+    tp = SObj(_pattern_ir.GraphPattern, "target_pattern")
+    tp.fields["inputs"] = SSeq(M, lambda i: inp(z3.simplify(i)), name="inputs")
+
+    def condition(*a, **k):
+        raise AssertionError
+
+    def m_condition(interp, *a, **k):
+        calls["cond"].append((a, dict(k), (bmap.has, bmap.val), (len(calls["n"]), len(calls["v"]))))
+        return respond(cond_answer)
+    I.models[condition] = m_condition
+    pat = SObj(rr.Pattern, "pattern")
+    pat.fields.update(_matcher=matcher, _target_pattern=tp, _condition_function=condition, _verbose=0, name="p")
+    removable = ctx.choose(2, "check_nodes_are_removable") == 0
+    tracer = None
+    logged = []
+    if ctx.choose(2, "tracer") == 1:
+        tracer = SObj(_basics.MatchingTracer, "tracer")
+
+        def log(*a, **k):
+            raise AssertionError
+        I.models[log] = lambda interp, *a, **k: logged.append(a[-1])
+        tracer.fields["log"] = log
+
+    def inv_inputs(interp, env, k, pre, it):
+        has, val = bmap.has, bmap.val
+        return [("a_passed_named_input_is_bound", z3.Implies(z3.And(k > i0, named(i0)), z3.Select(has, name_of(i0)))),
+                ("bindings_found_by_the_matcher_are_kept", z3.Implies(z3.Select(has0, x0), z3.And(z3.Select(has, x0), z3.Select(val, x0) == z3.Select(val0, x0)))),
+                ("an_added_binding_is_None", z3.Implies(z3.And(z3.Select(has, x0), z3.Not(z3.Select(has0, x0))), z3.Select(val, x0) == NONE)),
+                ("the_match_is_still_successful", z3.BoolVal(pm.fields["_success"] is True))]
+
+    def havoc_bindings(interp, env):
+        bmap.has = z3.Const(ctx.fresh("has"), A(S_, z3.BoolSort()))
+        bmap.val = z3.Const(ctx.fresh("val"), A(S_, I_))
+
+    def inv_checks(kind, p):
+        def inv(interp, env, k, pre, it):
+            return [("a_passed_check_accepted", z3.Implies(z3.And(k > p, has_check[kind](p)), answer[kind](p) == 0)),
+                    ("the_match_is_still_successful", z3.BoolVal(pm.fields["_success"] is True))]
+        return inv
+    I.loops[("Pattern.match", 0)] = LoopSpec({}, inv_inputs, heap_havoc=havoc_bindings)
+    I.loops[("Pattern.match", 1)] = LoopSpec({}, inv_checks("n", j0))
+    I.loops[("Pattern.match", 2)] = LoopSpec({}, inv_checks("v", q0))
+    model, graph, node = SObj(ir.Model, "model"), SObj(ir.Graph, "graph"), SObj(ir.Node, "node")
+    P = "C06.pattern.match."
+    try:
+        r = I.call(I.getattr(pat, "match"), [model, graph, node], {"check_nodes_are_removable": removable, "tracer": tracer})
+    except PyRaise as e:
+        ctx.check(P + "never_raises_when_checks_answer_in_a_documented_way", False, CL_CHECK)
+        return
+    ctx.check(P + "matcher_asked_for_this_node_and_told_whether_nodes_will_be_removed",
+              len(matcher_calls) >= 1 and all(c[0][:3] == (model, graph, node) and c[1].get("remove_nodes") is removable for c in matcher_calls),
+              "C06/C07: intermediate values may be used outside the match only if the rule keeps the nodes")
+    ctx.check(P + "every_check_receives_the_context_and_the_node_or_value_bound_to_its_pattern", not wrong_arg, CL_CHECK)
+    if not matched:
+        ctx.cover("pattern.match.no_match")
+        ctx.check(P + "no_match_is_reported_as_the_failed_match_and_no_check_runs", r is match and not I.truth(r) and not calls["n"] and not calls["v"] and not calls["cond"], CL_CHECK)
+        return
+    accepted_all = z3.And(z3.Implies(has_check["n"](j0), answer["n"](j0) == 0), z3.Implies(has_check["v"](q0), answer["v"](q0) == 0), cond_answer == 0)
+    if r is match:
+        ctx.cover("pattern.match.reported")
+        ctx.check(P + "reported_only_if_every_node_check_every_value_check_and_the_condition_accept", accepted_all, CL_CHECK)
+        ctx.check(P + "a_reported_match_is_successful", I.truth(match) is True, CL_CHECK)
+        ok = len(calls["cond"]) == 1
+        ctx.check(P + "condition_function_called_exactly_once_for_a_reported_match", ok, CL_CHECK)
+        if ok:
+            a, k, (h, v), _n = calls["cond"][0]
+            ctx.check(P + "condition_function_receives_the_context_and_the_bindings",
+                      len(a) == 1 and isinstance(a[0], _basics.MatchContext) or (len(a) == 1 and isinstance(a[0], SObj) and a[0].pycls is _basics.MatchContext), CL_CHECK)
+            ok2 = set(k) == {"__pyvc_starkw__"} and k["__pyvc_starkw__"] is bmap
+            ctx.check(P + "condition_function_receives_exactly_the_bindings_as_keywords", ok2, CL_CHECK)
+            ctx.check(P + "every_named_pattern_input_is_a_keyword_of_the_condition_function", z3.Implies(named(i0), z3.Select(h, name_of(i0))),
+                      "C06: 'The bindings returned are exactly the instance's values' - an input the match did not reach (optional, absent) is bound to None")
+            ctx.check(P + "bindings_of_the_matcher_reach_the_condition_function_unchanged",
+                      z3.Implies(z3.Select(has0, x0), z3.And(z3.Select(h, x0), z3.Select(v, x0) == z3.Select(val0, x0))), CL_BIND)
+            ctx.check(P + "an_unmatched_input_is_bound_to_None", z3.Implies(z3.And(z3.Select(h, x0), z3.Not(z3.Select(has0, x0))), z3.Select(v, x0) == NONE), CL_BIND)
+    else:
+        ctx.cover("pattern.match.vetoed")
+        ctx.check(P + "a_vetoed_match_returns_None", r is None, CL_CHECK)
+        a, b = z3.Ints("a b")
+        veto = z3.Or(z3.Exists([a], z3.And(a >= 0, a < N, has_check["n"](a), answer["n"](a) != 0)),
+                     z3.Exists([b], z3.And(b >= 0, b < V, has_check["v"](b), answer["v"](b) != 0)), cond_answer != 0)
+        ctx.check(P + "vetoed_only_if_some_check_or_the_condition_rejects", veto, CL_CHECK)
+        ctx.check(P + "a_vetoed_match_is_marked_failed", I.truth(match) is False, CL_CHECK)
+
+
+SCENARIOS.append(Scenario("C06.pattern.match[any number of checks]", s_pattern_match,
+                          [(RREL, "Pattern.match"), (RREL, "Pattern.match.fail"), (RREL, "Pattern.match.wrap_try"), (RREL, "Pattern.match.wrap_try.wrapped"),
+                           (BREL, "MatchResult.bind"), (BREL, "MatchResult.fail"), (BREL, "MatchContext.__init__")],
+                          trusted=["check functions answer in one of the documented ways: True / False / None / a falsy MatchResult / raise MatchFailureError"],
+                          assumptions=["three loop invariants, each at one arbitrary (Skolem) position; termination not proved"]))
